@@ -36,6 +36,7 @@ const (
 	clsTimeLiteral   = "time_literal_left_in_condition" // a time predicate that planning cannot split off keeps a TimeLiteral, which is printed as a string
 	clsDivAfterLit   = "division_after_non_identifier" // ('x') / b: planning drops the redundant parentheses; the scanner reads '/' after a string, boolean, duration or ::tag as a regex start
 	clsCallNameQuote = "call_name_needs_quotes" // "my fn"(a): Call.String() prints the function name without quoting (no such function can be planned)
+	clsMinDuration   = "duration_min_int64"       // a duration of -2^63 ns (only reachable by constant folding, 1ns * -9223372036854775808) prints as -9223372036854775808ns, whose magnitude no parser can read
 	clsEmptyInSet    = "empty_string_in_set"      // IN ('') : the store-side set parser drops empty strings
 )
 
